@@ -23,7 +23,7 @@ reply     none|cse|backend                               the scope the job's loo
 
 <expr> ::= N | T | F | i<int> | s<hex>
          | (E s<cls> s<msg>) | (C s<name>) | (F s<name>) | (T s<name>)
-         | (P s<name> (<expr>*) ((s<key> <expr>)*)) | (TH <expr>) | (V <expr>)
+         | (P s<name> (<expr>*) ((s<key> <expr>)*)) | (TH <expr>) | (V <expr>) | (O s<class> <expr>*)
          | (L <expr>*) | (U <expr>*) | (S <expr>*) | (NT s<cls> <expr>*) | (DC s<cls> <expr>*)
          | (D (<expr> <expr>)*)
          | (call s<name> (<expr>*) ((s<key> <expr>)*) [((s<var> <expr>)*)]) | (op s<name> <expr>*)     4th: update_context override
@@ -55,6 +55,10 @@ mutual
       let (kn, kv) ← toKws kws
       pure (.partialv n args kn kv)
     | .list [.atom "TH", e] => (toExpr e).map .threadv
+    | .list (.atom "O" :: .atom c :: xs) => do
+      let c ← strOfAtom c
+      let xs ← toExprs xs
+      pure (.objv c xs)
     | .list [.atom "V", e] => (toExpr e).map .vexpr
     | .list (.atom "L" :: xs) => (toExprs xs).map (.cont .list)
     | .list (.atom "U" :: xs) => (toExprs xs).map (.cont .tuple)
@@ -152,6 +156,7 @@ mutual
     | .taskv n => "(T " ++ atomOfStr n ++ ")"
     | .partialv n args kn kv => "(P " ++ atomOfStr n ++ " (" ++ showExprs args ++ ") (" ++ showKws kn kv ++ "))"
     | .threadv e => "(TH " ++ showExpr e ++ ")"
+    | .objv c xs => "(O " ++ atomOfStr c ++ sp xs ++ ")"
     | .vexpr e => "(V " ++ showExpr e ++ ")"
     | .cont .list xs => "(L" ++ sp xs ++ ")"
     | .cont .tuple xs => "(U" ++ sp xs ++ ")"
